@@ -144,6 +144,27 @@ func appendedZeros(call *ssa.Call) bool {
 	return true
 }
 
+// groupFailures collapses lockset failures (one per root path) to one entry per site function.
+func groupFailures(fs []string) map[string]string {
+	out := map[string]string{}
+	cnt := map[string]int{}
+	for _, f := range fs {
+		head := f
+		if i := strings.Index(f, " <- "); i >= 0 {
+			head = f[:i]
+		}
+		head = strings.TrimSuffix(head, " (root)")
+		cnt[head]++
+		if _, ok := out[head]; !ok {
+			out[head] = f
+		}
+	}
+	for k, v := range out {
+		out[k] = fmt.Sprintf("%d unlocked call path(s), e.g. %s", cnt[k], v)
+	}
+	return out
+}
+
 // ruleSeqLocks (C09-2): allocation happens under Conn.lock (exclusive) on every call path,
 // and allocation plus the datagram write happen under Conn.writeLock on the packet path.
 func ruleSeqLocks(c *Ctx, r *Report) {
@@ -159,8 +180,8 @@ func ruleSeqLocks(c *Ctx, r *Report) {
 	if len(res.Failures) == 0 {
 		r.OK(rule, "Conn.lock", "", fmt.Sprintf("all %d allocator call sites run with Conn.lock write-held; acquired by: %s", len(ins), strings.Join(res.Holders, ", ")))
 	} else {
-		for _, f := range res.Failures {
-			r.Bad(rule, "Conn.lock:"+f, "", "a call path reaches the sequence-number allocator without holding Conn.lock exclusively: "+f)
+		for k, f := range groupFailures(res.Failures) {
+			r.Bad(rule, "Conn.lock:"+k, "", "a call path reaches the sequence-number allocator without holding Conn.lock exclusively: "+f)
 		}
 	}
 	// the counter slice is also grown in the allocator: same lock covers it.
@@ -178,8 +199,8 @@ func ruleSeqLocks(c *Ctx, r *Report) {
 	if len(res2.Failures) == 0 {
 		r.OK("write-under-writeLock", "Conn.writeLock", "", fmt.Sprintf("%d Conn datagram write site(s) run under writeLock (held from allocation to the write); acquired by: %s", len(pktWrites), strings.Join(res2.Holders, ", ")))
 	} else {
-		for _, f := range res2.Failures {
-			r.Bad("write-under-writeLock", "Conn.writeLock:"+f, "", "datagram write on the packet path without writeLock: records may be emitted out of allocation order: "+f)
+		for k, f := range groupFailures(res2.Failures) {
+			r.Bad("write-under-writeLock", "Conn.writeLock:"+k, "", "datagram write on the packet path without writeLock: records may be emitted out of allocation order: "+f)
 		}
 	}
 	// the allocation on the packet path is under writeLock as well (prepare is called from the locked writer)
@@ -193,8 +214,8 @@ func ruleSeqLocks(c *Ctx, r *Report) {
 	if len(res3.Failures) == 0 {
 		r.OK("prepare-under-writeLock", "Conn.writeLock", "", "record preparation (allocation+marshal+encrypt) is called only with writeLock held: "+strings.Join(res3.Holders, ", "))
 	} else {
-		for _, f := range res3.Failures {
-			r.Bad("prepare-under-writeLock", "Conn.writeLock:"+f, "", "records prepared without writeLock: "+f)
+		for k, f := range groupFailures(res3.Failures) {
+			r.Bad("prepare-under-writeLock", "Conn.writeLock:"+k, "", "records prepared without writeLock: "+f)
 		}
 	}
 }
